@@ -23,6 +23,45 @@ theorem skipWspComma_le (s : Str) : (skipWspComma s).length ≤ s.length := by
 theorem parseF32_nil : parseF32 [] = .err := by
   simp [parseF32]
 
+theorem take_drop_len (p : Char → Bool) (s : Str) : (s.takeWhile p).length + (s.dropWhile p).length = s.length := by
+  rw [← List.length_append, List.takeWhile_append_dropWhile]
+
+theorem takeSign_len (s : Str) : (takeSign s).1.length + (takeSign s).2.length = s.length := by
+  unfold takeSign; split <;> simp <;> omega
+
+theorem takeDigits_len (s : Str) : (takeDigits s).1.length + (takeDigits s).2.length = s.length :=
+  take_drop_len isDigit s
+
+theorem takeFrac_len (s : Str) : (takeFrac s).1.length + (takeFrac s).2.length = s.length := by
+  unfold takeFrac
+  split
+  · rename_i r
+    have := take_drop_len isDigit r
+    simp only [List.length_cons]; omega
+  · simp
+
+theorem takeExp_len (s : Str) : (takeExp s).1.length + (takeExp s).2.length = s.length := by
+  unfold takeExp
+  split
+  · rename_i c r
+    split
+    · have h1 := takeSign_len r
+      have h2 := take_drop_len isDigit (takeSign r).2
+      simp only [List.length_cons, List.length_append]
+      omega
+    · simp
+  · simp
+
+/-- the scanner splits its input: token and rest together are the input -/
+theorem scanNumber_len (s : Str) : (scanNumber s).1.length + (scanNumber s).2.length = s.length := by
+  unfold scanNumber
+  have h1 := takeSign_len s
+  have h2 := takeDigits_len (takeSign s).2
+  have h3 := takeFrac_len (takeDigits (takeSign s).2).2
+  have h4 := takeExp_len (takeFrac (takeDigits (takeSign s).2).2).2
+  simp only [List.length_append]
+  omega
+
 theorem readNumber_lt {s : Str} {q : Rat} {r : Str} (h : readNumber s = some (q, r)) :
     r.length < s.length := by
   unfold readNumber at h
@@ -33,15 +72,27 @@ theorem readNumber_lt {s : Str} {q : Rat} {r : Str} (h : readNumber s = some (q,
     · rename_i q' hp
       simp only [Option.some.injEq, Prod.mk.injEq] at h
       obtain ⟨_, hr⟩ := h
-      have htok : (s.takeWhile isNumChar) ≠ [] := by
+      have htok : (scanNumber s).1 ≠ [] := by
         intro he; rw [he, parseF32_nil] at hp; cases hp
-      have hlen : (s.takeWhile isNumChar).length + (s.dropWhile isNumChar).length = s.length := by
-        rw [← List.length_append, List.takeWhile_append_dropWhile]
-      have hpos : 0 < (s.takeWhile isNumChar).length := List.length_pos_iff.mpr htok
-      have := skipWspComma_le (s.dropWhile isNumChar)
+      have hlen := scanNumber_len s
+      have hpos : 0 < (scanNumber s).1.length := List.length_pos_iff.mpr htok
+      have := skipWspComma_le (scanNumber s).2
       rw [← hr]
       omega
     · cases h
+
+theorem readFlag_lt {s r : Str} (h : readFlag s = some r) : r.length < s.length := by
+  unfold readFlag at h
+  split at h
+  · rename_i r0
+    simp only [Option.some.injEq] at h
+    have := skipWspComma_le r0
+    rw [← h]; simp only [List.length_cons]; omega
+  · rename_i r0
+    simp only [Option.some.injEq] at h
+    have := skipWspComma_le r0
+    rw [← h]; simp only [List.length_cons]; omega
+  · cases h
 
 theorem readCoord_lt {s : Str} {xy : Rat × Rat} {r : Str} (h : readCoord s = some (xy, r)) :
     r.length < s.length := by
@@ -272,8 +323,9 @@ theorem step_lt {st st' : PState} (hg : Good st) (h : step st = some st') :
         simp only [Option.bind_some] at hb
         have := hcoord s0 g s1 st' hb
         exact fin s1 (ho s1 rfl) hz ⟨this.1, by rw [this.2, hc0]⟩
-    have hA : ∀ s1, ((List.range 1).foldl (fun (acc : Option Str) _ => acc.bind fun x => (readCoord x).map (·.2)) (some r)).bind
-        (fun s => (List.range 3).foldl (fun (acc : Option Str) _ => acc.bind fun x => (readNumber x).map (·.2)) (some s)) = some s1 →
+    have hA : ∀ s1, (((((List.range 1).foldl (fun (acc : Option Str) _ => acc.bind fun x => (readCoord x).map (·.2)) (some r)).bind
+        (fun s => (List.range 1).foldl (fun (acc : Option Str) _ => acc.bind fun x => (readNumber x).map (·.2)) (some s))).bind
+        readFlag).bind readFlag) = some s1 →
         s1.length ≤ r.length := by
       intro s1 h1
       cases ho : (List.range 1).foldl (fun (acc : Option Str) _ => acc.bind fun x => (readCoord x).map (·.2)) (some r) with
@@ -281,9 +333,21 @@ theorem step_lt {st st' : PState} (hg : Good st) (h : step st = some st') :
       | some s2 =>
         rw [ho] at h1
         simp only [Option.bind_some] at h1
-        have a := foldCoords_le 1 r s2 ho
-        have b := foldNums_le 3 s2 s1 h1
-        omega
+        cases hn : (List.range 1).foldl (fun (acc : Option Str) _ => acc.bind fun x => (readNumber x).map (·.2)) (some s2) with
+        | none => rw [hn] at h1; cases h1
+        | some s3 =>
+          rw [hn] at h1
+          simp only [Option.bind_some] at h1
+          cases hf : readFlag s3 with
+          | none => rw [hf] at h1; cases h1
+          | some s4 =>
+            rw [hf] at h1
+            simp only [Option.bind_some] at h1
+            have a := foldCoords_le 1 r s2 ho
+            have b := foldNums_le 1 s2 s3 hn
+            have c := readFlag_lt hf
+            have d := readFlag_lt h1
+            omega
     by_cases hM : (cmd == 'C') = true
     · rw [if_pos hM] at h
       exact hbind _ (fun p => p.1) _ rfl (fun s1 h1 => foldCoords_le 2 r s1 h1) h
